@@ -412,7 +412,7 @@ func checkC04(c *Ctx, r *Report) {
 	memoMark := map[*ssa.Function]bool{}
 	isUpdate := func(in ssa.Instruction) bool {
 		cc := getCall(in)
-		return cc != nil && cc.IsInvoke() && cc.Method.Name() == "UpdateEndpointStatus" && isNamed(cc.Value.Type(), pkgPorts, "DiscoveryService")
+		return cc != nil && cc.IsInvoke() && cc.Method.Name() == "UpdateEndpointStatus" // on ports.DiscoveryService or any narrower interface carrying that method
 	}
 	offlineConst, _ := c.ConstVal(pkgDomain, "StatusOffline")
 	isOfflineStore := func(in ssa.Instruction) bool {
@@ -717,6 +717,45 @@ func checkWrapperAgreement(c *Ctx, r *Report, gate *connGate) {
 	for _, f := range parts {
 		for _, ret := range returnsOf(f) {
 			rets = append(rets, pr{f, ret})
+		}
+	}
+	// table-driven branches: `for _, m := range table { if strings.Contains(s, m.needle) { return fmt.Errorf(m.format, …) } }`
+	for _, x := range rets {
+		ret := x.ret
+		call, ok := retResult(ret, 0).(*ssa.Call)
+		if !ok || describeCall(&call.Call).Pkg != "fmt" || describeCall(&call.Call).Name != "Errorf" {
+			continue
+		}
+		if _, isK := constString(call.Call.Args[0]); isK {
+			continue
+		}
+		g := globalBehind(call.Call.Args[0])
+		if g == nil {
+			continue
+		}
+		var viaContains bool
+		for _, cf := range normFacts(condFacts(ret.Block())) {
+			if cc, ok := cf.Cond.(*ssa.Call); ok && cf.True && describeCall(&cc.Call).Pkg == "strings" && describeCall(&cc.Call).Name == "Contains" && globalBehind(cc.Call.Args[1]) == g {
+				viaContains = true
+			}
+		}
+		rows, okT := c.globalTable(g)
+		if !viaContains || !okT {
+			continue
+		}
+		want := map[string]bool{"connection refused": true, "connection reset": true}
+		for _, row := range rows {
+			if len(row.Leaves) < 2 || !want[row.Leaves[0]] {
+				continue
+			}
+			_, frags := parseFormat(row.Leaves[1])
+			ae := &absErr{Fragments: frags}
+			key := fname(wrapper) + ":branch:contains:" + row.Leaves[0]
+			if gate.accepts(ae) == "yes" {
+				r.OK("C04-R3", key, retPos(x.f, ret), fmt.Sprintf("table row %q → %q is accepted by %s", row.Leaves[0], row.Leaves[1], fname(gate.Fn)))
+			} else {
+				r.Bad("C04-R3", key, retPos(x.f, ret), fmt.Sprintf("the wrapper's table turns a contains:%s failure into an error the retry predicate %s does not accept (fragments %q): no failover for this fault kind", row.Leaves[0], fname(gate.Fn), frags))
+			}
 		}
 	}
 	for _, x := range rets {
